@@ -243,10 +243,9 @@ class DeepHash(Base):
         """
 
         key = obj
-        if obj is True:
-            key = BoolObj.TRUE
-        elif obj is False:
-            key = BoolObj.FALSE
+        if isinstance(obj, booleanTypes):
+            # _hash stores every boolean (numpy's too) under a BoolObj member
+            key = BoolObj.TRUE if obj else BoolObj.FALSE
         elif use_enum_value and isinstance(obj, Enum):
             key = obj.value
 
